@@ -36,6 +36,10 @@ def use_repo():
     import warnings
 
     warnings.filterwarnings("ignore", category=DeprecationWarning)
+    import logging
+    lg = logging.getLogger("codebasin")
+    lg.addHandler(logging.NullHandler())
+    lg.propagate = False
     import codebasin  # noqa
 
     got = os.path.dirname(os.path.dirname(os.path.abspath(codebasin.__file__)))
